@@ -121,10 +121,12 @@ fn check2(out: &mut Out, format: Format, blk: &[u8], q: CompressionQuality, m: E
     let Some((c, e, tol, src)) = worst else { return; };
     // classification of the two known causes (see DESIGN.md, findings F13 and F14)
     let family = matches!(format, Format::BC1_UNORM | Format::BC2_UNORM | Format::BC3_UNORM | Format::BC3_UNORM_RXGB | Format::BC3_UNORM_NORMAL);
-    let sum = |p: [u8; 4]| p[0] as i32 + p[1] as i32 + p[2] as i32;
+    // the colour block of RXGB holds (0, g, b): red travels in the alpha block
+    let sum = |p: [u8; 4]| if format == Format::BC3_UNORM_RXGB { p[1] as i32 + p[2] as i32 } else { p[0] as i32 + p[1] as i32 + p[2] as i32 };
     let span = (a[c] as i32 - b[c] as i32).abs();
     let tag = if family && m == ErrorMetric::Uniform && sum(a) == sum(b) && a != b { "F13: colour difference orthogonal to (1,1,1): ".to_string() }
               else if family && q == CompressionQuality::Fast && e <= 80 { let _ = span; "F14: Fast quality does not refine the nudged line-fit endpoints: ".to_string() }
+              else if matches!(format, Format::BC3_UNORM_RXGB | Format::BC3_UNORM_NORMAL) && m == ErrorMetric::Perceptual { "F17: perceptual metric applied to the swizzled colour block: ".to_string() }
               else { String::new() };
     println!("IMPL-VIOLATION {tag}two representable colours decode outside the endpoint quantisation step: channel {c} in {src} error {e} (bound {tol}): {what}");
 }
